@@ -166,6 +166,12 @@ func scenTokens(rng *rand.Rand, tr *sim.Trace, seg int, events int) {
 				use = nil
 			case 5:
 				from = other // the token of src used from another IP
+				if src.IP.To4() == nil && rng.Intn(2) == 0 {
+					// ... in particular from a neighbour in the same IPv6 /64 (or /112)
+					ip := append(net.IP{}, src.IP...)
+					ip[8+rng.Intn(8)] ^= byte(1 + rng.Intn(255))
+					from = &net.UDPAddr{IP: ip, Port: 1024 + rng.Intn(60000)}
+				}
 			case 6:
 				use = foreignTok
 			case 7:
